@@ -135,6 +135,52 @@ class Walks(Suite):
             acc["partial"] = acc.get("partial", 0) + int(sum(len(b) for b in out) < case["n"])
 
 
+class Reach(Walks):
+    """Systematic exploration of the implementation: breadth-first search over the states (vector, missing set)
+    that the library's own step functions reach from the initial ranking, under every scripted choice
+    (element, alea). One walk case per distinct reached state (its shortest script), run through
+    generate_rankings and judged like any walk: when a change to a move breaks the invariant only after a
+    long specific sequence, this is the suite that finds the sequence."""
+    name = "reach"
+
+    def gen(self, tier, rng):
+        cases = []
+        cap = 600 if tier == "quick" else 6000
+        for complete in (False, True):
+            for n in range(1, 5 if tier == "quick" else 6):
+                step = getattr(Ranking, "_Ranking__step_element_complete" if complete else "_Ranking__step_element_incomplete")
+                start = (tuple(range(n)), frozenset())
+                seen = {start: []}
+                frontier = [start]
+                while frontier and len(seen) < cap:
+                    nxt = []
+                    for st in frontier:
+                        for e in range(n):
+                            for a in range(1, 5 if complete else 6):
+                                arr = np.array(st[0], dtype=int)
+                                miss = set(st[1])
+                                old = rk.randint
+                                rk.randint = lambda lo, hi, a=a: a
+                                try:
+                                    try:
+                                        if complete:
+                                            step(arr, e)
+                                        else:
+                                            step(arr, e, miss)
+                                    except Exception:
+                                        pass  # the walk case itself will show the exception
+                                finally:
+                                    rk.randint = old
+                                ns = (tuple(int(x) for x in arr), frozenset(miss))
+                                if ns not in seen and max(ns[0]) <= 2 * n + 2:
+                                    seen[ns] = seen[st] + [[e, a]]
+                                    nxt.append(ns)
+                    frontier = nxt
+                for st, script in seen.items():
+                    cases.append({"n": n, "complete": complete, "script": script})
+        return cases
+
+
 class Wrappers(Suite):
     """Dataset-level wrappers with the library's own random source (fixed seed): shape, flags, failure mode.
     Judged in Coq by the same well-formedness predicate."""
@@ -178,9 +224,9 @@ class Wrappers(Suite):
 
 
 if __name__ == "__main__":
-    main("C20", [Moves(), Walks(), Wrappers()],
+    main("C20", [Moves(), Walks(), Reach(), Wrappers()],
          level_note="invariant proved for every move / every script (unbounded n, steps); randint/shuffle are inputs of the model "
                     "(scripted in the correspondence); n = 0 or m = 0 are outside the property's domain (n=0 makes numpy raise ValueError)",
          rule="moves: every dense vector of length <= 4 (thorough 5) x every element x the moves the code can apply to it (exhaustive); "
-              "walks: n 1..6 x steps {0..60} x both modes with scripted randint (removal-biased in incomplete mode); wrappers: Dataset-level "
+              "reach: one shortest scripted walk to EVERY state (vector, missing set) that the library reaches from the start for n <= 4 (thorough 5), both modes; walks: n 1..6 x steps {0..60} x both modes with scripted randint (removal-biased in incomplete mode); wrappers: Dataset-level "
               "generators under the library's own RNG. non-trivial: move changes the vector / script length >= 2")
